@@ -119,17 +119,21 @@ def isPanic {α} : R α → Bool
   | .error (.unmodelled _) => true   -- propagate like a panic: the whole scenario is dropped
   | _ => false
 
-/-- `GetValueElem` is transparent for model values except nil pointers (-> zero Value) -/
-def derefOperand : Val → Val
+/-- `GetValueElem`: nil pointers / interfaces become the zero Value; an interface holding a
+    scalar yields the scalar; everything else is unchanged -/
+def derefOperand (st : Store) : Val → Val
   | .nilptr => .invalid
+  | .ref p => match st.get p with
+    | some (.iface (some (.leaf x))) => x
+    | _ => .ref p
   | v => v
 
-def evalBinOp (c : Cfg) (op : BinOp) (l r : Val) : R Val :=
-  evalTable (c.tab op) (derefOperand l) (derefOperand r)
+def evalBinOp (c : Cfg) (st : Store) (op : BinOp) (l r : Val) : R Val :=
+  evalTable (c.tab op) (derefOperand st l) (derefOperand st r)
 
 /-- pkg.EvaluateLogicSingle -/
-def logicSingle (v : Val) : Option Bool :=
-  match derefOperand v with
+def logicSingle (st : Store) (v : Val) : Option Bool :=
+  match derefOperand st v with
   | .bool b => some b
   | _ => none
 
@@ -341,7 +345,7 @@ mutual
             match lr with
             | .error _ => some (evalErr "left hand expression error", s1)
             | .ok lv =>
-              match logicSingle lv with
+              match logicSingle s1.st lv with
               | some b =>
                 if (op == .and && !b) || (op == .or && b) then some (.ok (.bool b), memoPutE c k (.bool b) s1)
                 else none
@@ -356,7 +360,7 @@ mutual
           | .error _, _ => (evalErr "left hand expression error", s2)
           | _, .error _ => (evalErr "right hand expression error", s2)
           | .ok lv, .ok rv =>
-            match evalBinOp c op lv rv with
+            match evalBinOp c s2.st op lv rv with
             | .ok v => (.ok v, memoPutE c k v s2)
             | .error e => (.error e, s2)
 
@@ -465,7 +469,9 @@ def assignVar (c : Cfg) (s : EState) (target : Var) (new : Val) : R Unit × ESta
   match target with
   | .root n =>
     match writeRoot s.st n new with
-    | .ok st' => (.ok (), { s with st := st', log := .write (snapV target) :: s.log })
+    | .ok st' =>
+      let s1 := { s with st := st', log := .write (snapV target) :: s.log }
+      (.ok (), if c.memo then resetVariable c.wm (snapV target) s1 else s1)
     | .error e => (.error e, s)
   | .field v f =>
     match evalV c s v with
@@ -486,7 +492,8 @@ def assignVar (c : Cfg) (s : EState) (target : Var) (new : Val) : R Unit × ESta
         match writeIndex c.cells s2.st pv iv new with
         | .ok st' =>
           let s3 := { s2 with st := st', log := .write (snapV target) :: s2.log }
-          (.ok (), if c.memo then resetVariable c.wm (snapV target) s3 else s3)
+          -- reset by the container variable
+          (.ok (), if c.memo then resetVariable c.wm (snapV v) s3 else s3)
         | .error e => (.error e, s2)
 
 def AssignOp.binop : AssignOp → Option BinOp
@@ -504,7 +511,7 @@ def execAction (c : Cfg) (s : EState) : Action → R Unit × EState
         match evalV c s1 target with
         | (.error e, s2) => (.error e, s2)
         | (.ok cur, s2) =>
-          match evalBinOp c bop cur rv with
+          match evalBinOp c s2.st bop cur rv with
           | .error e => (.error e, s2)
           | .ok nv => assignVar c s2 target nv
   | .stmt a =>
